@@ -22,6 +22,7 @@ import (
 	"testing/synctest"
 	"time"
 
+	"mhubsim/conn/relaygen"
 	"mhubsim/ext"
 	"mhubsim/hub"
 
@@ -36,15 +37,42 @@ import (
 	"github.com/tendermint/tendermint/libs/log"
 )
 
+// Parameters come from the environment: the connector's cosmos package parses the process flags in a package
+// initialiser (config.Get), before any test flag exists, so the test binary must be started without arguments
+// (and in a directory that holds a config.toml).
+func envInt(k string, d int64) int64 {
+	if v, err := strconv.ParseInt(os.Getenv(k), 10, 64); err == nil {
+		return v
+	}
+	return d
+}
+func envStr(k, d string) string {
+	if v := os.Getenv(k); v != "" {
+		return v
+	}
+	return d
+}
+func envFloat(k string, d float64) float64 {
+	if v, err := strconv.ParseFloat(os.Getenv(k), 64); err == nil {
+		return v
+	}
+	return d
+}
+
 var (
-	flagSeed    = flag.Int64("c20.seed", 20261004, "seed")
-	flagIdx     = flag.Int("c20.idx", 0, "worker index")
-	flagBudget  = flag.Float64("c20.budget", 30, "seconds")
-	flagOut     = flag.String("c20.out", "", "result file")
-	flagReplay  = flag.String("c20.replay", "", "replay file")
-	flagTier    = flag.String("c20.tier", "quick", "tier")
-	flagReplays = flag.String("c20.replaydir", "/verif/replays", "replay dir")
+	pSeed    = envInt("C20_SEED", 20261004)
+	pIdx     = int(envInt("C20_IDX", 0))
+	pBudget  = envFloat("C20_BUDGET", 30)
+	pOut     = envStr("C20_OUT", "")
+	pReplay  = envStr("C20_REPLAY", "")
+	pTier    = envStr("C20_TIER", "quick")
+	pReplays = envStr("C20_REPLAYDIR", "/verif/replays")
 )
+
+func TestMain(m *testing.M) {
+	flag.Set("test.timeout", "6h") // no flags can be passed on the command line (see above)
+	os.Exit(m.Run())
+}
 
 const multisig = "Mxb1d9e1000000000000000000000000000000b1d9"
 
@@ -140,6 +168,8 @@ type caseSpec struct {
 	HubAck     uint64 `json:"hub_ack"`
 	FailBlocks int    `json:"fail_blocks"`
 	FailStatus int    `json:"fail_status"`
+
+	polledEvents bool // out: the poll found bridge events (and died handing them over)
 }
 
 func hubAddrOK(s string) bool { _, err := sdk.AccAddressFromBech32(s); return err == nil }
@@ -495,6 +525,7 @@ type result struct {
 	Histories  int            `json:"histories"`
 	Restarts   int            `json:"restarts"`
 	Commands   int            `json:"commands"`
+	Polls      int            `json:"polls"`
 	Distinct   map[string]int `json:"distinct"`
 	Faults     map[string]int `json:"faults"`
 	Probes     map[string]int `json:"probes"`
@@ -556,12 +587,12 @@ func shrinkCase(t *testing.T, c *caseSpec, dir, sig string) *caseSpec {
 }
 
 func writeReplay(rf *replayFile) string {
-	os.MkdirAll(*flagReplays, 0o755)
+	os.MkdirAll(pReplays, 0o755)
 	h := 0
 	for _, ch := range rf.Signature {
 		h = h*31 + int(ch)
 	}
-	p := filepath.Join(*flagReplays, fmt.Sprintf("C20-%08x-%d.json", uint32(h), *flagIdx))
+	p := filepath.Join(pReplays, fmt.Sprintf("C20-%08x-%d.json", uint32(h), pIdx))
 	b, _ := json.MarshalIndent(rf, "", " ")
 	os.WriteFile(p, b, 0o644)
 	return p
@@ -570,8 +601,8 @@ func writeReplay(rf *replayFile) string {
 func TestC20(t *testing.T) {
 	hub.Setup()
 	dir := t.TempDir()
-	if *flagReplay != "" {
-		b, err := os.ReadFile(*flagReplay)
+	if pReplay != "" {
+		b, err := os.ReadFile(pReplay)
 		if err != nil {
 			t.Fatal(err)
 		}
@@ -583,22 +614,24 @@ func TestC20(t *testing.T) {
 		if rf.Kind == "command" {
 			a, _ := new(big.Int).SetString(rf.Amount, 10)
 			v = checkCommand(rf.Payload, a)
+		} else if rf.Kind == "poll" {
+			v, _ = runPoll(t, rf.Case, dir)
 		} else {
 			v, _ = runRestart(t, rf.Case, dir)
 		}
 		if v == nil {
-			fmt.Printf("replay of %s: no violation (recorded %s)\n", *flagReplay, rf.Signature)
+			fmt.Printf("replay of %s: no violation (recorded %s)\n", pReplay, rf.Signature)
 			return
 		}
-		fmt.Printf("replay of %s: %s: %s\n", *flagReplay, v.sig(), v.Message)
+		fmt.Printf("replay of %s: %s: %s\n", pReplay, v.sig(), v.Message)
 		if v.sig() == rf.Signature {
-			fmt.Printf("VIOLATION property=C20 replay=%s\n", *flagReplay)
+			fmt.Printf("VIOLATION property=C20 replay=%s\n", pReplay)
 		}
 		return
 	}
 	t0 := time.Now()
 	res := result{Distinct: map[string]int{}, Faults: map[string]int{}, Probes: map[string]int{}}
-	x := uint64(*flagSeed)*0x9E3779B97F4A7C15 + uint64(*flagIdx)*0xBF58476D1CE4E5B9 + 7
+	x := uint64(pSeed)*0x9E3779B97F4A7C15 + uint64(pIdx)*0xBF58476D1CE4E5B9 + 7
 	next := func() int64 {
 		x += 0x9E3779B97F4A7C15
 		z := x
@@ -620,10 +653,10 @@ func TestC20(t *testing.T) {
 			Replay    string `json:"replay"`
 		}{v.sig(), v.Message, p})
 	}
-	for time.Since(t0).Seconds() < *flagBudget {
+	for time.Since(t0).Seconds() < pBudget {
 		seed := next()
 		r := rand.New(rand.NewSource(seed))
-		c := genHistory(r, *flagTier)
+		c := genHistory(r, pTier)
 		c.Seed = seed
 		m := buildChain(c)
 		can := canonical(m, c)
@@ -640,7 +673,7 @@ func TestC20(t *testing.T) {
 		}
 		stride := 1
 		limit := 4000
-		if *flagTier != "thorough" {
+		if pTier != "thorough" {
 			limit = 1500
 		}
 		if len(can)*len(acks) > limit {
@@ -648,7 +681,7 @@ func TestC20(t *testing.T) {
 		}
 		k := 0
 		for ci := 0; ci < len(can); ci++ {
-			if time.Since(t0).Seconds() > *flagBudget*1.5 {
+			if time.Since(t0).Seconds() > pBudget*1.5 {
 				break
 			}
 			for _, ack := range acks {
@@ -694,6 +727,38 @@ func TestC20(t *testing.T) {
 				report(v, &replayFile{Kind: "restart", Case: shrinkCase(t, &cc, dir, v.sig())})
 			}
 		}
+		// the polling loop itself (real relayMinterEvents): from every persisted cursor one poll; a poll that
+		// finds bridge events dies while handing the claims over (the process is killed in CommitTx), a poll
+		// that finds none returns; either way what is on disk must be a consistent cursor, and a restart from
+		// it (the hub having acknowledged what was claimed before the poll) must number events canonically
+		pstride := 1
+		if len(can) > 60 {
+			pstride = len(can)/60 + 1
+		}
+		for ci := 0; ci < len(can); ci += pstride {
+			if time.Since(t0).Seconds() > pBudget*1.5 {
+				break
+			}
+			cc := *c
+			cc.File, cc.FileBlock = "cursor", can[ci].Block
+			cc.HubAck = 0
+			if can[ci].Nonce > 0 {
+				cc.HubAck = can[ci].Nonce - 1
+			}
+			res.Polls++
+			v, err := runPoll(t, &cc, dir)
+			if err != nil {
+				t.Fatalf("infrastructure: %v", err)
+			}
+			if v != nil {
+				report(v, &replayFile{Kind: "poll", Case: &cc})
+			} else if cc.polledEvents {
+				res.Faults["connector_killed_while_submitting_claims"]++
+				res.Distinct["poll/crash/"+relPos(ci, len(can))]++
+			} else {
+				res.Distinct["poll/quiet/"+relPos(ci, len(can))]++
+			}
+		}
 		// command payloads: every deposit-shaped payload of this history plus fresh fuzz
 		for i := 0; i < 200; i++ {
 			amount := new(big.Int).SetInt64(int64(1 + r.Intn(1000)))
@@ -709,8 +774,8 @@ func TestC20(t *testing.T) {
 	}
 	res.WallS = time.Since(t0).Seconds()
 	b, _ := json.Marshal(res)
-	if *flagOut != "" {
-		os.WriteFile(*flagOut, b, 0o644)
+	if pOut != "" {
+		os.WriteFile(pOut, b, 0o644)
 	} else {
 		fmt.Println(string(b))
 	}
@@ -725,4 +790,87 @@ func relPos(i, n int) string {
 	default:
 		return "middle"
 	}
+}
+
+// runPoll drives ONE polling step of the real connector loop from a consistent persisted cursor.
+func runPoll(t *testing.T, c *caseSpec, dir string) (viol *violation, infra error) {
+	m := buildChain(c)
+	can := canonical(m, c)
+	byBlock := map[uint64]cursor{}
+	for _, x := range can {
+		byBlock[x.Block] = x
+	}
+	cu, ok := byBlock[c.FileBlock]
+	if !ok {
+		return nil, nil
+	}
+	path := filepath.Join(dir, "connector-status.json")
+	os.Remove(path)
+	b, _ := json.Marshal(statusFile{cu.Block, cu.Nonce, cu.Batch, cu.Valset})
+	os.WriteFile(path, b, 0o644)
+	stub := &stubAPI{m: m}
+	cl, err := http_client.New("http://sim.invalid/")
+	if err != nil {
+		return nil, err
+	}
+	cl.ClientService = stub
+	mcfg := config.MinterConfig{MultisigAddr: multisig, StartBlock: c.StartBlock, StartEventNonce: c.StartNonce, StartBatchNonce: c.StartBatch, StartValsetNonce: c.StartVS}
+	relaygen.SetCfg(&config.Config{Minter: mcfg})
+	ctx := cctx.Context{MinterMultisigAddr: multisig, MinterClient: cl, Logger: log.NewNopLogger(), OrcAddress: hub.NewAccount("c20-orch").Addr}
+	ctx.LoadStatus(path, mcfg)
+	// TxCommitter stays nil: handing claims over kills the process (nil dereference inside CommitTx)
+	var died interface{}
+	func() {
+		defer func() { died = recover() }()
+		relaygen.RelayMinterEvents(ctx)
+	}()
+	c.polledEvents = died != nil
+	raw, err := os.ReadFile(path)
+	var sf statusFile
+	if err != nil || json.Unmarshal(raw, &sf) != nil {
+		return &violation{"poll-cursor", "unreadable", fmt.Sprintf("after a poll from block %d the status file is unreadable", c.FileBlock)}, nil
+	}
+	want, known := byBlock[sf.LastCheckedMinterBlock]
+	kind := "quiet"
+	if died != nil {
+		kind = "killed-in-commit"
+	}
+	if !known {
+		return &violation{"poll-cursor", kind + ":block", fmt.Sprintf("after a poll from block %d (%s) the persisted cursor points at block %d", c.FileBlock, kind, sf.LastCheckedMinterBlock)}, nil
+	}
+	if sf.LastEventNonce != want.Nonce || sf.LastBatchNonce != want.Batch {
+		return &violation{"poll-cursor", kind + ":nonce", fmt.Sprintf("after a poll from block %d (%s) the persisted cursor is (block %d, next event nonce %d, batch nonce %d); the events at or below that block make it (%d, %d)",
+			c.FileBlock, kind, sf.LastCheckedMinterBlock, sf.LastEventNonce, sf.LastBatchNonce, want.Nonce, want.Batch)}, nil
+	}
+	if died == nil {
+		// nothing to claim in the scanned range: the cursor moved to the end of the range (at most 100 blocks)
+		end := cu.Block + 100
+		if end > m.Height {
+			end = m.Height
+		}
+		if sf.LastCheckedMinterBlock != end {
+			// events beyond the first 100 blocks do not matter; a quiet poll must reach the end of its range
+			return &violation{"poll-cursor", "quiet:progress", fmt.Sprintf("a poll from block %d that found no bridge event left the cursor at block %d, range end %d", c.FileBlock, sf.LastCheckedMinterBlock, end)}, nil
+		}
+		return nil, nil
+	}
+	// the process died while handing claims over; the hub has what was claimed before this poll.
+	// Restart with the real start-up code from what is on disk.
+	ctx2 := cctx.Context{MinterMultisigAddr: multisig, MinterClient: cl, Logger: log.NewNopLogger()}
+	var out cctx.Context
+	var panicked interface{}
+	func() {
+		defer func() { panicked = recover() }()
+		ctx2.LoadStatus(path, mcfg)
+		out = minter.GetLatestMinterBlockAndNonce(ctx2, c.HubAck)
+	}()
+	if panicked != nil {
+		return &violation{"poll-cursor", "restart-panic", fmt.Sprintf("restart after a killed poll panicked: %v", panicked)}, nil
+	}
+	w2, ok2 := byBlock[out.LastCheckedMinterBlock()]
+	if !ok2 || out.LastEventNonce() != w2.Nonce || out.LastBatchNonce() != w2.Batch {
+		return &violation{"poll-cursor", "restart:nonce", fmt.Sprintf("restart after a poll from block %d was killed in CommitTx (hub acknowledged %d): cursor (block %d, next event nonce %d, batch nonce %d), canonical (%d, %d)",
+			c.FileBlock, c.HubAck, out.LastCheckedMinterBlock(), out.LastEventNonce(), out.LastBatchNonce(), w2.Nonce, w2.Batch)}, nil
+	}
+	return nil, nil
 }
